@@ -5,7 +5,8 @@ from .. import gen, core
 
 ID = "C01"
 LEAN_TARGETS = ["Cider.Props.C01", "Cider.Props.C02Tie"]
-OPTIONAL_TARGETS = ["Cider.Props.C01Gen"]
+OPTIONAL_TARGETS = ["Cider.Props.C01Gen", "Cider.Props.C01Src"]
+OPTIONAL_THEOREMS = {"Cider.Props.C01Src": ['Cider.C01Src.kappaDecision_eq', 'Cider.C01Src.sigmaDecision_eq']}
 P = "Cider.C01."
 THEOREMS = ["Cider.C02.gen_charge_eq_published"] + [P + t for t in (
     "kappa_neg_one_iff", "kappa_eq_ratio", "kappa_nonneg", "kappa_le_one_iff", "kappa_range_iff",
